@@ -130,10 +130,10 @@ CLAIMS.update({
    "mergeBlock: exhaustive for 2 positions x 1..5 replicas and 3 positions x 2..4 replicas plus seeded random cases over standard/time/bsi fragments and blocks 0,1,3: the local block and every replica after applying its diffs equal the per-bit majority (ties set), nothing outside the block changes. "
    "Complete SyncHolder passes over 2..5 in-process replicas with a routed fake client: every fragment of every replica equals the majority, repairs land in the view they were computed for, checksums agree afterwards; the bit-sliced view of an int field is included (it was a probe without oracle until the defect that made its repair impossible was fixed).",
    TRUST + "The bounded part's oracle is a hand-written majority model and is not a proof.", "contract-based deductive verification: loop invariants, SMT + bounded stand-in"),
- "C21": ("exploration",
-   "BOUNDED ONLY - resize planning (fragSources, resize job generation) is map/closure graph code outside the subset. " + BC +
+ "C21": ("proof",
+   "Deductive part (one kernel only, nothing else of the property is proved): cluster.unprotectedNodeByID returns the first node carrying the ID and nil exactly when no node carries it; fragSources resolves every source node ID through it and cluster.diff identifies the added / removed node with it. The plan itself is BOUNDED ONLY - resize planning (fragSources, resize job generation) is map/closure graph code outside the subset. " + BC +
    "Clusters of 1-6 nodes, replicaN 0..5, two schemas, random available shards, every single add and remove: every (node,index,field,view,shard) newly owned has a source that owned it before and is not the removed node; a refusal only when some need has no surviving owner. Cleanup: the RESIZING->NORMAL transition is played through SetState and, for every non-coordinator node of adds and removes at replicaN 1..3, through mergeClusterStatus with the final membership; what survives is compared with the owner lists of the resulting cluster.",
-   "bounded exploration; nothing here is a proof.", "bounded stand-in"),
+   TRUST + "The bounded part is exploration and not a proof.", "contract-based deductive verification: loop invariants, SMT + bounded stand-in"),
  "C23": ("exploration",
    "BOUNDED/EXHAUSTIVE ENUMERATION - the admission table is a package-level map consulted through API.validate: all 25 apiMethod constants x 4 cluster states are enumerated against the table in the property statement (exhaustive for that finite domain), and 35 calls of exported API entry points (imports with every option combination, a remote query) are made on an API with nil holder/server in STARTING and RESIZING to show they refuse before touching data. Not a deductive proof: that every future entry point calls validate first is not shown.",
    "exhaustive over the finite decision table; entry-point coverage is by enumeration of the existing methods.", "exhaustive enumeration (bounded stand-in)"),
